@@ -29,134 +29,240 @@ func runC06(w *World, r *Report, tier string) {
 
 	// ---- R1
 	rm := w.Func("xmpp.(*Router).Match")
-	loops := findRangeLoops(rm)
-	if len(loops) != 1 || fieldNames(fieldPath(loops[0].slice)) != "routes" {
-		r.Fail("R1", "xmpp.(*Router).Match#loop", w.pos(rm.Pos()), "Router.Match does not range over r.routes in ascending order")
-	} else {
-		lp := loops[0]
+	// ascendingFrom0: v is the index of a loop that visits 0, 1, 2, … (a range index, or i := 0; …; i++)
+	ascendingFrom0 := func(v ssa.Value) bool {
+		if inc, ok := v.(*ssa.BinOp); ok && inc.Op == token.ADD {
+			if one, isOne := intConst(inc.Y); isOne && one == 1 {
+				if phi, ok := inc.X.(*ssa.Phi); ok && len(phi.Edges) == 2 {
+					m1, back := false, false
+					for _, e := range phi.Edges {
+						if k, ok := intConst(e); ok && k == -1 {
+							m1 = true
+						}
+						if e == ssa.Value(inc) {
+							back = true
+						}
+					}
+					return m1 && back
+				}
+			}
+		}
+		if phi, ok := v.(*ssa.Phi); ok && len(phi.Edges) == 2 {
+			zero, step := false, false
+			for _, e := range phi.Edges {
+				if k, ok := intConst(e); ok && k == 0 {
+					zero = true
+				}
+				if inc, ok := e.(*ssa.BinOp); ok && inc.Op == token.ADD && inc.X == ssa.Value(phi) {
+					if one, isOne := intConst(inc.Y); isOne && one == 1 {
+						step = true
+					}
+				}
+			}
+			return zero && step
+		}
+		return false
+	}
+	// elemOfField: v is s[i] with i ascending from 0 and s the receiver's field of that name (possibly through a local copy)
+	elemOfField := func(v ssa.Value, field string) bool {
+		u, ok := v.(*ssa.UnOp)
+		if !ok {
+			return false
+		}
+		ia, ok := u.X.(*ssa.IndexAddr)
+		if !ok || !ascendingFrom0(ia.Index) {
+			return false
+		}
+		return strings.HasSuffix(w.nf(ia.X, 0), "."+field)
+	}
+	isRet := func(in ssa.Instruction) bool { _, ok := in.(*ssa.Return); return ok }
+	_ = isRet
+	// ---- R1: first match wins — judged from the one call of Route.Match under both outcomes
+	{
 		calls := w.callsInH(rm, "xmpp.Route.Match")
 		ok := len(calls) == 1
 		detail := fmt.Sprintf("%d Route.Match calls", len(calls))
 		if ok {
 			mc := calls[0].(*ssa.Call)
-			// receiver is the ranged element; args are p and match params
-			if u, isU := mc.Call.Args[0].(*ssa.UnOp); !isU || func() bool { ia, ok := u.X.(*ssa.IndexAddr); return !ok || ia.Index != lp.idx }() {
-				ok, detail = false, "Match is not called on the ranged route"
+			isMC := func(in ssa.Instruction) bool { return in == ssa.Instruction(mc) }
+			if !elemOfField(mc.Call.Args[0], "routes") {
+				ok, detail = false, "Match is not called on the routes in ascending order from the first"
 			}
-			if mc.Call.Args[1] != ssa.Value(rm.Params[1]) || mc.Call.Args[2] != ssa.Value(rm.Params[2]) {
+			if origin(mc.Call.Args[1]) != ssa.Value(rm.Params[1]) || origin(mc.Call.Args[2]) != ssa.Value(rm.Params[2]) {
 				ok, detail = false, "the packet/match record passed to Route.Match are not Router.Match's own"
 			}
-			// true edge → return true without another Match
-			for _, b := range rm.Blocks {
-				for si := range b.Succs {
-					c, truth, isIf := edgeAssertion(b, si)
-					if !isIf || c != ssa.Value(mc) {
-						continue
+			withAssumption(mc, true, func() {
+				n := 0
+				walkPaths(after(mc), isMC, nil, 2000, func(path []ssa.Instruction, end pathEnd) {
+					n++
+					last := path[len(path)-1]
+					rt, isRet := last.(*ssa.Return)
+					if !isRet {
+						ok, detail = false, "after a route matched, the search continues: a later route can overwrite the match (last match wins)"
+						return
 					}
-					start := Loc{b.Succs[si], 0}
-					isHeader := func(in ssa.Instruction) bool { return in == lp.header.Instrs[0] }
-					walkPaths(start, isHeader, nil, 1000, func(path []ssa.Instruction, end pathEnd) {
-						last := path[len(path)-1]
-						if truth {
-							rt, isRet := last.(*ssa.Return)
-							if !isRet {
-								ok, detail = false, "after a route matched, the search continues: a later route can overwrite the match (last match wins)"
-								return
-							}
-							if bv, isC := boolConst(rres(path, rt)[0]); !isC || !bv {
-								ok, detail = false, "a matching route does not make Router.Match return true"
-							}
-						} else {
-							if !isHeader(last) {
-								ok, detail = false, "a route that does not match ends the search"
-							}
-						}
-					})
+					if bv, isC := boolConst(rres(path, rt)[0]); !isC || !bv {
+						ok, detail = false, "a matching route does not make Router.Match return true"
+					}
+				})
+				if n == 0 {
+					ok, detail = false, "no path after a matching route"
 				}
-			}
-			// after the loop: return false
-			walkPaths(Loc{lp.done, 0}, nil, nil, 100, func(path []ssa.Instruction, end pathEnd) {
-				if rt, isRet := path[len(path)-1].(*ssa.Return); isRet {
+			})
+			withAssumption(mc, false, func() {
+				again, exhausted := 0, 0
+				walkPaths(after(mc), isMC, nil, 2000, func(path []ssa.Instruction, end pathEnd) {
+					last := path[len(path)-1]
+					if isMC(last) {
+						again++
+						return
+					}
+					rt, isRet := last.(*ssa.Return)
+					if !isRet {
+						return
+					}
+					exhausted++
 					if bv, isC := boolConst(rres(path, rt)[0]); !isC || bv {
 						ok, detail = false, "with no matching route Router.Match does not return false"
+					}
+				})
+				if again == 0 {
+					ok, detail = false, "a route that does not match ends the search"
+				}
+				if exhausted == 0 {
+					ok, detail = false, "the search never ends without a match"
+				}
+			})
+			// no route at all: false
+			walkPaths(entryLoc(rm), isMC, nil, 2000, func(path []ssa.Instruction, end pathEnd) {
+				if rt, isRet := path[len(path)-1].(*ssa.Return); isRet {
+					if bv, isC := boolConst(rres(path, rt)[0]); !isC || bv {
+						ok, detail = false, "with no route at all Router.Match does not return false"
 					}
 				}
 			})
 		}
-		r.Check(ok, "R1", "xmpp.(*Router).Match", w.pos(rm.Pos()), detail, "ascending range; first true ⇒ return true; exhausted ⇒ false")
+		r.Check(ok, "R1", "xmpp.(*Router).Match", w.pos(rm.Pos()), detail, "routes asked in ascending order; first true ⇒ return true without asking further; exhausted ⇒ false")
 	}
 
-	// ---- R2
+	// ---- R2: a route is the conjunction of its matchers; the match record is written only when all agreed
 	rtm := w.Func("xmpp.(*Route).Match")
 	{
-		loops := findRangeLoops(rtm)
 		fRoute := w.Field("xmpp.RouteMatch.Route")
 		fHandler := w.Field("xmpp.RouteMatch.Handler")
 		isRecStore := func(in ssa.Instruction) bool { return isStoreTo(in, fRoute) || isStoreTo(in, fHandler) }
-		ok := len(loops) == 1 && fieldNames(fieldPath(loops[0].slice)) == "matchers"
-		detail := "Route.Match does not range over r.matchers"
-		if ok {
-			lp := loops[0]
-			calls := w.callsInH(rtm, "xmpp.Matcher.Match")
-			if len(calls) != 1 {
-				ok, detail = false, fmt.Sprintf("%d Matcher.Match calls", len(calls))
-			} else {
-				mc := calls[0].(*ssa.Call)
-				if mc.Call.Args[0] != ssa.Value(rtm.Params[1]) {
-					ok, detail = false, "the matchers are not asked about the routed packet"
+		recorded := func(path []ssa.Instruction) bool {
+			okR, okH := false, false
+			for _, in := range path {
+				if st, isSt := in.(*ssa.Store); isSt {
+					if isStoreTo(in, fRoute) && st.Val == ssa.Value(rtm.Params[0]) {
+						okR = true
+					}
+					if isStoreTo(in, fHandler) && fieldNames(fieldPath(st.Val)) == "handler" && rootOf(st.Val) == ssa.Value(rtm.Params[0]) {
+						okH = true
+					}
+					if fa, isFA := st.Addr.(*ssa.FieldAddr); isFA && (fieldOfAddr(fa) == fRoute || fieldOfAddr(fa) == fHandler) && fa.X != ssa.Value(rtm.Params[2]) {
+						okR = false
+					}
 				}
-				isHeader := func(in ssa.Instruction) bool { return in == lp.header.Instrs[0] }
-				walkPaths(Loc{lp.body, 0}, isHeader, nil, 1000, func(path []ssa.Instruction, end pathEnd) {
+			}
+			return okR && okH
+		}
+		calls := w.callsInH(rtm, "xmpp.Matcher.Match")
+		ok := len(calls) == 1
+		detail := fmt.Sprintf("%d Matcher.Match calls", len(calls))
+		if ok {
+			mc := calls[0].(*ssa.Call)
+			isMC := func(in ssa.Instruction) bool { return in == ssa.Instruction(mc) }
+			if !elemOfField(mc.Call.Value, "matchers") {
+				ok, detail = false, "Route.Match does not ask its matchers in order from the first"
+			}
+			if origin(mc.Call.Args[0]) != ssa.Value(rtm.Params[1]) {
+				ok, detail = false, "the matchers are not asked about the routed packet"
+			}
+			withAssumption(mc, false, func() {
+				n := 0
+				walkPaths(after(mc), isMC, nil, 2000, func(path []ssa.Instruction, end pathEnd) {
+					n++
 					last := path[len(path)-1]
-					said := pathAsserts(path, func(c ssa.Value, truth bool) bool { return c == ssa.Value(mc) && truth })
-					if said {
-						if !isHeader(last) {
-							ok, detail = false, "after a matcher accepted, the remaining matchers are not consulted (disjunction instead of conjunction)"
-						}
-					} else {
-						rt, isRet := last.(*ssa.Return)
-						if !isRet {
-							ok, detail = false, "a matcher's refusal does not end Route.Match"
-						} else if bv, isC := boolConst(rres(path, rt)[0]); !isC || bv {
-							ok, detail = false, "a matcher's refusal does not make Route.Match return false"
-						}
+					rt, isRet := last.(*ssa.Return)
+					if !isRet {
+						ok, detail = false, "a matcher's refusal does not end Route.Match"
+						return
+					}
+					if bv, isC := boolConst(rres(path, rt)[0]); !isC || bv {
+						ok, detail = false, "a matcher's refusal does not make Route.Match return false"
 					}
 					if countOn(path, isRecStore) > 0 {
-						ok, detail = false, "the match record is written before all matchers agreed"
+						ok, detail = false, "the match record is written although a matcher refused"
 					}
 				})
-				// after the loop: stores of r and r.handler, then true
-				walkPaths(Loc{lp.done, 0}, nil, nil, 100, func(path []ssa.Instruction, end pathEnd) {
-					okR, okH := false, false
-					for _, in := range path {
-						if st, isSt := in.(*ssa.Store); isSt {
-							if isStoreTo(in, fRoute) && st.Val == ssa.Value(rtm.Params[0]) {
-								okR = true
-							}
-							if isStoreTo(in, fHandler) && fieldNames(fieldPath(st.Val)) == "handler" && rootOf(st.Val) == ssa.Value(rtm.Params[0]) {
-								okH = true
-							}
-							if fa, isFA := st.Addr.(*ssa.FieldAddr); isFA && (fieldOfAddr(fa) == fRoute || fieldOfAddr(fa) == fHandler) && fa.X != ssa.Value(rtm.Params[2]) {
-								okR = false
-							}
+				if n == 0 {
+					ok, detail = false, "no path after a refusing matcher"
+				}
+			})
+			withAssumption(mc, true, func() {
+				again, done := 0, 0
+				walkPaths(after(mc), isMC, nil, 2000, func(path []ssa.Instruction, end pathEnd) {
+					last := path[len(path)-1]
+					if isMC(last) {
+						again++
+						if countOn(path, isRecStore) > 0 {
+							ok, detail = false, "the match record is written before all matchers agreed"
 						}
+						return
 					}
-					rt, isRet := path[len(path)-1].(*ssa.Return)
-					bv, isC := false, false
-					if isRet {
-						bv, isC = boolConst(rres(path, rt)[0])
+					rt, isRet := last.(*ssa.Return)
+					if !isRet {
+						return
 					}
-					if !okR || !okH || !isRet || !isC || !bv {
+					done++
+					bv, isC := boolConst(rres(path, rt)[0])
+					if !isC || !bv || !recorded(path) {
 						ok, detail = false, "when all matchers agree Route.Match does not record this route and its handler and return true"
 					}
 				})
-			}
+				if again == 0 {
+					ok, detail = false, "after a matcher accepted, the remaining matchers are not consulted (disjunction instead of conjunction)"
+				}
+				if done == 0 {
+					ok, detail = false, "Route.Match never succeeds"
+				}
+			})
+			// no matcher at all: the route matches
+			walkPaths(entryLoc(rtm), isMC, nil, 2000, func(path []ssa.Instruction, end pathEnd) {
+				if rt, isRet := path[len(path)-1].(*ssa.Return); isRet {
+					if bv, isC := boolConst(rres(path, rt)[0]); !isC || !bv || !recorded(path) {
+						ok, detail = false, "a route without matchers does not match (record route and handler, return true)"
+					}
+				}
+			})
 		}
 		r.Check(ok, "R2", "xmpp.(*Route).Match", w.pos(rtm.Pos()), detail, "all matchers must accept; then match.Route = r, match.Handler = r.handler, true")
 	}
 
 	// ---- R3 / R5 / R6 in Router.route
 	route := w.Func("xmpp.(*Router).route")
+	// the automatic reply: a Send of iq.MakeError(…) — in iqNotImplemented today, possibly inlined into route
+	isReplySend := func(in ssa.Instruction) bool {
+		c := asCall(in)
+		if c == nil || !w.isCallTo("xmpp.Sender.Send")(in) {
+			return false
+		}
+		arg := c.Common().Args[0]
+		if mi, ok := arg.(*ssa.MakeInterface); ok {
+			arg = mi.X
+		}
+		mk, ok := arg.(*ssa.Call)
+		return ok && w.callKey(mk) == "stanza.IQ.MakeError"
+	}
+	niFn := w.FuncOpt("xmpp.iqNotImplemented")
+	isNIsite := func(in ssa.Instruction) bool {
+		if niFn != nil {
+			return w.isCallTo("xmpp.iqNotImplemented")(in)
+		}
+		return isReplySend(in)
+	}
 	{
 		mcalls := w.callsInH(route, "xmpp.Router.Match")
 		if len(mcalls) != 1 {
@@ -164,7 +270,7 @@ func runC06(w *World, r *Report, tier string) {
 		} else {
 			mc := mcalls[0].(*ssa.Call)
 			isHP := w.isCallTo("xmpp.Handler.HandlePacket")
-			isNI := w.isCallTo("xmpp.iqNotImplemented")
+			isNI := isNIsite
 			okArgs := mc.Call.Args[1] == ssa.Value(route.Params[2])
 			matchRec := mc.Call.Args[2]
 			bad := ""
@@ -229,7 +335,12 @@ func runC06(w *World, r *Report, tier string) {
 			})
 			r.Check(bad == "" && okArgs && nM > 0 && nU > 0, "R3", "xmpp.(*Router).route#dispatch", w.ipos(mc), bad, fmt.Sprintf("%d matched path(s) with one HandlePacket(s,p) of match.Handler; %d unmatched path(s) with none", nM, nU))
 			// isIq is the ok of p.(*stanza.IQ) at function level: the not-implemented call is unreachable without type IQ and get/set
-			niCalls := w.callsInH(route, "xmpp.iqNotImplemented")
+			var niCalls []ssa.CallInstruction
+			allInstrsH(route, func(in ssa.Instruction) {
+				if isNIsite(in) {
+					niCalls = append(niCalls, asCall(in))
+				}
+			})
 			okNI := len(niCalls) == 1
 			if okNI {
 				ni := niCalls[0].(ssa.Instruction)
@@ -269,9 +380,22 @@ func runC06(w *World, r *Report, tier string) {
 					okNI = false // both request types (get and set) must lead to the reply
 				}
 				// argument is the asserted IQ and the routed sender
-				a := niCalls[0].Common().Args
-				T, _ := typeAssertSource(origin(a[1]), pIQ)
-				if origin(a[0]) != ssa.Value(route.Params[1]) || T == nil || w.typeStr(T) != "*stanza.IQ" {
+				var sender, iqArg ssa.Value
+				if niFn != nil {
+					a := niCalls[0].Common().Args
+					sender, iqArg = a[0], a[1]
+				} else {
+					// inlined: s.Send(iq.MakeError(…))
+					cc := niCalls[0].Common()
+					sender = cc.Value
+					arg := cc.Args[0]
+					if mi, ok := arg.(*ssa.MakeInterface); ok {
+						arg = mi.X
+					}
+					iqArg = arg.(*ssa.Call).Call.Args[0]
+				}
+				T, _ := typeAssertSource(origin(iqArg), pIQ)
+				if origin(sender) != ssa.Value(route.Params[1]) || T == nil || w.typeStr(T) != "*stanza.IQ" {
 					okNI = false
 				}
 			}
@@ -280,8 +404,22 @@ func runC06(w *World, r *Report, tier string) {
 	}
 	// iqNotImplemented body
 	{
-		ni := w.Func("xmpp.iqNotImplemented")
-		sends := w.callsInH(ni, "xmpp.Sender.Send", "xmpp.Sender.SendRaw", "xmpp.Sender.SendIQ")
+		// the function that builds and sends the reply: iqNotImplemented, or route itself (with its helpers) when inlined
+		ni := niFn
+		var sends []ssa.CallInstruction
+		var wantIQ, wantSender ssa.Value
+		if ni != nil {
+			sends = w.callsInH(ni, "xmpp.Sender.Send", "xmpp.Sender.SendRaw", "xmpp.Sender.SendIQ")
+			wantIQ, wantSender = ni.Params[1], ni.Params[0]
+		} else {
+			ni = route
+			allInstrsH(route, func(in ssa.Instruction) {
+				if isReplySend(in) {
+					sends = append(sends, asCall(in))
+				}
+			})
+			wantSender = route.Params[1]
+		}
 		ok := len(sends) == 1 && w.callKey(sends[0]) == "xmpp.Sender.Send"
 		detail := fmt.Sprintf("%d sends", len(sends))
 		if ok {
@@ -290,10 +428,18 @@ func runC06(w *World, r *Report, tier string) {
 				arg = mi.X
 			}
 			mk, isCall := arg.(*ssa.Call)
-			if !isCall || w.callKey(mk) != "stanza.IQ.MakeError" || mk.Call.Args[0] != ssa.Value(ni.Params[1]) {
+			okIQ := isCall && w.callKey(mk) == "stanza.IQ.MakeError"
+			if okIQ && wantIQ != nil && mk.Call.Args[0] != wantIQ {
+				okIQ = false
+			}
+			if okIQ && wantIQ == nil {
+				T, _ := typeAssertSource(origin(mk.Call.Args[0]), route.Params[2])
+				okIQ = T != nil && w.typeStr(T) == "*stanza.IQ"
+			}
+			if !okIQ {
 				ok, detail = false, "what is sent is not iq.MakeError(…) of the request"
 			} else {
-				fields, _ := complitFields(mk.Call.Args[1])
+				fields, _ := complitFields(origin(mk.Call.Args[1]))
 				reason, _ := stringConst(fields["Reason"])
 				typ, _ := stringConst(fields["Type"])
 				if reason != "feature-not-implemented" || typ != "cancel" {
@@ -303,7 +449,7 @@ func runC06(w *World, r *Report, tier string) {
 					ok, detail = false, "the error has no legacy code: Err.MarshalXML omits an error whose code is 0, so the reply would carry no error element"
 				}
 			}
-			if sends[0].Common().Value != ssa.Value(ni.Params[0]) {
+			if origin(sends[0].Common().Value) != wantSender {
 				ok, detail = false, "the reply is not sent through the routed sender"
 			}
 		}
@@ -392,7 +538,7 @@ func runC06(w *World, r *Report, tier string) {
 			allInstrs(f, func(in ssa.Instruction) {
 				if isSend(in) {
 					n++
-					r.Check(allowed[fk], "R6", fk+"→"+w.callKey(asCall(in)), w.ipos(in), "a send reachable from Router.route outside the automatic error reply and the stream-management retransmission", "allowed reply site")
+					r.Check(allowed[fk] || isReplySend(in), "R6", fk+"→"+w.callKey(asCall(in)), w.ipos(in), "a send reachable from Router.route outside the automatic error reply and the stream-management retransmission", "allowed reply site")
 				}
 			})
 		}
@@ -438,42 +584,45 @@ func c06Matchers(w *World, r *Report) {
 		if v, done := memb[mia]; done {
 			return v
 		}
-		eq := edgesAsserting(mia, func(c ssa.Value, truth bool) bool {
-			bo, ok := c.(*ssa.BinOp)
-			if !ok || bo.Op != token.EQL || !truth {
-				return false
-			}
-			isElem := func(v ssa.Value) bool {
-				u, ok := v.(*ssa.UnOp)
-				if !ok {
-					return false
-				}
-				ia, ok := u.X.(*ssa.IndexAddr)
-				return ok && ia.X == ssa.Value(mia.Params[0])
-			}
-			return (isElem(bo.X) && bo.Y == ssa.Value(mia.Params[1])) || (isElem(bo.Y) && bo.X == ssa.Value(mia.Params[1]))
-		})
-		retTrue := func(in ssa.Instruction) bool {
-			rt, ok := in.(*ssa.Return)
+		// judged on every path: a true result needs an element found equal to the value; an element found equal gives true
+		isElem := func(v ssa.Value) bool {
+			u, ok := v.(*ssa.UnOp)
 			if !ok {
 				return false
 			}
-			b, isC := boolConst(rt.Results[0])
-			return !isC || b
+			ia, ok := u.X.(*ssa.IndexAddr)
+			return ok && ia.X == ssa.Value(mia.Params[0])
 		}
-		okEq := len(eq) > 0 && !reachable(entryLoc(mia), retTrue, nil, eq)
-		// the equality edge leads to return true
-		for e := range eq {
-			if reachable(Loc{e.From.Succs[e.Succ], 0}, func(in ssa.Instruction) bool {
-				rt, ok := in.(*ssa.Return)
-				if !ok {
+		okEq, nTrue, nFalse := true, 0, 0
+		err := walkPaths(entryLoc(mia), nil, nil, 5000, func(path []ssa.Instruction, end pathEnd) {
+			rt, isRet := path[len(path)-1].(*ssa.Return)
+			if !isRet || end == endCycle {
+				return
+			}
+			found := pathAsserts(path, func(c ssa.Value, truth bool) bool {
+				bo, ok := c.(*ssa.BinOp)
+				if !ok || (bo.Op != token.EQL && bo.Op != token.NEQ) || (bo.Op == token.EQL) != truth {
 					return false
 				}
-				b, isC := boolConst(rt.Results[0])
-				return isC && !b
-			}, nil, nil) {
-				okEq = false
+				return (isElem(bo.X) && bo.Y == ssa.Value(mia.Params[1])) || (isElem(bo.Y) && bo.X == ssa.Value(mia.Params[1]))
+			})
+			res := rres(path, rt)[0]
+			bv, isC := boolConst(res)
+			if !isC {
+				bv, isC = w.pathDecides(path, res)
 			}
+			if !isC || bv != found {
+				okEq = false
+				return
+			}
+			if bv {
+				nTrue++
+			} else {
+				nFalse++
+			}
+		})
+		if err != nil || nTrue == 0 || nFalse == 0 {
+			okEq = false
 		}
 		memb[mia] = okEq
 		r.Check(okEq, "R4", w.funcKey(mia), w.pos(mia.Pos()), "the membership function the matchers rely on does not return true exactly from an equality with an element of the list", "true iff some element equals the value")
@@ -582,7 +731,7 @@ func c06Matchers(w *World, r *Report) {
 			}
 			emptyType := pathAsserts(path, func(cv ssa.Value, truth bool) bool {
 				bo, ok := cv.(*ssa.BinOp)
-				if !ok || bo.Op != token.EQL || !truth {
+				if !ok || (bo.Op != token.EQL && bo.Op != token.NEQ) || (bo.Op == token.EQL) != truth {
 					return false
 				}
 				s, isS := stringConst(bo.Y)
